@@ -88,6 +88,8 @@ type Scn struct {
 	// PassBias: 0 = outcomes drawn uniformly over the score tables, 1 = most identities pass, 2 = nearly all pass
 	PassBias int
 	Opts     Opts
+	Contracts      []*Contract
+	pendingDeploys map[common.Hash]string
 	// statistics
 	Blocks, EmptyBlocks, TxIncluded int
 }
